@@ -317,7 +317,10 @@ def run(inp):
         got = outcome(lambda: f.splitlines(c[1]), canon_result)
     elif k == "join":
         py = outcome(lambda: s.join([item_text(it) for it in c[1]]), canon_plain)
-        got = outcome(lambda: f.join([build_item(it) for it in c[1]]), canon_result)
+        built = [build_item(it) for it in c[1]]
+        shape = (len(built) + len(inp["runs"])) % 3          # a list, an iterator, a generator: str.join takes any iterable
+        arg = built if shape == 0 else iter(built) if shape == 1 else (x for x in built)
+        got = outcome(lambda: f.join(arg), canon_result)
     elif k in ("ljust", "rjust"):
         args = [c[1]] + ([] if c[2] is None else [c[2]])
         py = outcome(lambda: getattr(s, k)(*args), canon_plain)
